@@ -190,6 +190,10 @@ class ASTCFG(dict[str, WritableASTBlock]):
         """Prune empty blocks from the CFG."""
         empty = set()
         for name, block in list(self.items()):
+            # The entry block must be kept, even if empty, such that the CFG
+            # retains a unique block without predecessors.
+            if name == "0":
+                continue
             if not block.instructions:
                 empty.add(self.pop(name))
                 # Empty blocks can only have a single jump target.
@@ -865,7 +869,11 @@ class SCFG2ASTTransformer:
                 )
                 if_node = ast.If(test, body, orelse)
                 return block.tree[:-1] + [if_node]
-            elif block.fallthrough and type(block.tree[-1]) is ast.Return:
+            elif (
+                block.fallthrough
+                and block.tree
+                and type(block.tree[-1]) is ast.Return
+            ):
                 # The value of the ast.Return could be either None or an
                 # ast.AST type. In the case of None, this refers to a plain
                 # 'return', which is implicitly 'return None'. So, if it is
